@@ -19,7 +19,7 @@ open Tickit Tickit.Life
     `src/renderbuffer.c` on every run). -/
 def extracted : Cfg :=
   ⟨Gen.Life.closePurges, Gen.Life.destroyClosesChildren, Gen.Life.spanExactFit, Gen.Life.mouseKeepsRoot,
-   Gen.Life.lastPressInit, Gen.Life.dragForgottenOnClose, Gen.Life.snapshotRouting⟩
+   Gen.Life.lastPressInit, Gen.Life.dragForgottenOnClose, Gen.Life.snapshotRouting, Gen.Life.penCopyKeepsSrc⟩
 
 /-- The source tree contains the repairs the theorems below need (close purges the queue and forgets the drag
     source, destroy closes a child before dropping its reference, `get_span_text` terminates only with room).
@@ -95,7 +95,7 @@ theorem no_ub : ∀ (ops : List Op) (st : St), SInv st → PlainHistory ops →
       obtain ⟨st2, hr, inv2⟩ := no_ub rest st1 inv1 hrest
       exact ⟨st2, by unfold runOps; rw [hs]; exact hr, inv2⟩
     · subst he
-      obtain ⟨st1, hd, inv1⟩ := dropAll_ok extracted_repaired inv
+      obtain ⟨st1, hd, inv1, _⟩ := dropAll_ok extracted_repaired inv
       obtain ⟨st2, hr, inv2⟩ := no_ub rest st1 inv1 hrest
       refine ⟨st2, ?_, inv2⟩
       unfold runOps step
@@ -199,7 +199,9 @@ theorem handlers_counterexample : ¬ no_ub_handlers_full := by
 /-- **refcount_inv**: after every plain history from the start, (a) every live pen's count is the application's
     references plus the number of windows holding the pen (and a freed pen is held by no window), (b) the
     terminal's count is the application's references plus one for a live root window, (c) every live window and
-    every live render buffer holds at least one reference, (d) a freed window holds no pen. -/
+    every live render buffer holds at least one reference, (d) a freed window holds no pen, (e) no live window
+    holds more references than the application has taken, (f) a live buffer's or string's count is the
+    application's tally. -/
 theorem refcount_inv (lines cols : Int) (mock : Bool) (ops : List Op) (h : PlainHistory ops) :
     ∃ st, runOps extracted {} (.newTerm lines cols mock :: ops) = .ok st ∧
       (∀ (k : Nat) (p : Obj), st.pens[k]? = some p →
@@ -208,10 +210,14 @@ theorem refcount_inv (lines cols : Int) (mock : Bool) (ops : List Op) (h : Plain
       (st.term.freed = false → (¬ ∃ r, LiveW st.tree 0 r) → st.term.refcount = (st.term.appRefs : Int)) ∧
       (∀ (i : Nat) (w : WinTree.Win), LiveW st.tree i w → 1 ≤ w.refcount) ∧
       (∀ (k : Nat) (b : RBObj), st.rbs[k]? = some b → b.freed = false → 1 ≤ b.refcount) ∧
-      (∀ (i : Nat) (w : WinTree.Win), st.tree.wins[i]? = some w → w.freed = true → (getX st i).pen = .null) := by
+      (∀ (i : Nat) (w : WinTree.Win), st.tree.wins[i]? = some w → w.freed = true → (getX st i).pen = .null) ∧
+      (∀ (i : Nat) (w : WinTree.Win), LiveW st.tree i w → w.refcount ≤ ((getX st i).appRefs : Int)) ∧
+      (∀ (k : Nat) (b : RBObj), st.rbs[k]? = some b → b.freed = false → b.refcount = (b.appRefs : Int)) ∧
+      (∀ (k : Nat) (s : StrObj), st.strs[k]? = some s → s.freed = false → 1 ≤ s.refcount ∧ s.refcount = (s.appRefs : Int)) := by
   obtain ⟨st, hr, inv⟩ := no_ub_from_start lines cols mock ops h
   refine ⟨st, hr, inv.pens.rc, fun hf hl => inv.term_held hf (.inl hl), fun hf hl => (inv.term_free hf ?_).1, inv.rc,
-    inv.rb_rc, fun i w hw hf => inv.dead_pen i w hw hf (by simp)⟩
+    inv.rb_rc, fun i w hw hf => inv.dead_pen i w hw hf (by simp), inv.wref,
+    fun k b hb hf => (inv.simple.1 k b hb hf).2, inv.simple.2⟩
   rintro (h' | h')
   · exact hl h'
   · simp at h'
@@ -224,19 +230,32 @@ example : (runOps extracted {} [.newTerm 6 12 false, .win 0 ⟨0, 0, 2, 2⟩ 0, 
 /-! ## all_released — once the application's references are dropped nothing remains -/
 
 /-- Dropping every reference the application holds (`end`: windows from the highest handle down to the root,
-    then pens, strings, buffers, the terminal) never fails, whatever the history before. -/
-theorem drop_all_never_fails (st : St) (inv : SInv st) : ∃ st', dropAll extracted st = .ok st' ∧ SInv st' :=
-  dropAll_ok extracted_repaired inv
+    then pens, strings, buffers, the terminal) never fails, whatever the history before, and leaves nothing
+    allocated: every window, pen, string, buffer and the terminal is freed and no restacking request is queued. -/
+theorem drop_all_never_fails (st : St) (inv : SInv st) :
+    ∃ st', dropAll extracted st = .ok st' ∧ SInv st' ∧ anythingLeft st' = false := by
+  obtain ⟨st', h, inv', H⟩ := dropAll_ok extracted_repaired inv
+  exact ⟨st', h, inv', nothing_left inv' H⟩
 
-/-- Full statement of **all_released**: after any plain history and the final drop, every window, pen, string,
-    buffer and the terminal is freed and no queued request is left.  Open: it needs, in addition to `SInv`, the
-    exact account of the application's references to windows (`refcount = appRefs` for every live window, through
-    the cascade that lets a dying parent take one reference of each linked child); proved so far:
-    `drop_all_never_fails`, and the statement is checked on every explored history (LeakSanitizer + the model's
-    `anythingLeft`). -/
-def all_released_full : Prop :=
-  ∀ (lines cols : Int) (mock : Bool) (ops : List Op), PlainHistory ops →
-    ∃ st, runOps extracted {} (.newTerm lines cols mock :: ops ++ [.«end»]) = .ok st ∧ anythingLeft st = false
+/-- **all_released**: after any history of operations without event handlers (windows created, referenced, closed,
+    restacked, destroyed parents-first or children-first, pens shared between windows and the application,
+    strings, render buffers, terminal references), once the application has dropped every reference it holds,
+    every window, pen, string, buffer and the terminal is freed and no queued request is left.  The proof carries
+    the exact account of references through every operation: a live window never holds more references than the
+    application has taken (`SInvG.wref`; a dying parent takes one reference of each child still linked to it and
+    the application's tally follows, `consume`), a pen's count is the application's references plus the windows
+    holding it, a string's or buffer's count is the application's tally, the terminal's is the application's plus
+    one for a live root window. -/
+theorem all_released (lines cols : Int) (mock : Bool) (ops : List Op) (h : PlainHistory ops) :
+    ∃ st, runOps extracted {} (.newTerm lines cols mock :: ops ++ [.«end»]) = .ok st ∧ anythingLeft st = false := by
+  obtain ⟨st1, hr, inv1⟩ := no_ub_from_start lines cols mock ops h
+  obtain ⟨st2, hd, _, hleft⟩ := drop_all_never_fails st1 inv1
+  refine ⟨st2, ?_, hleft⟩
+  have := runOps_append extracted (.newTerm lines cols mock :: ops) [.«end»] {} st1 hr
+  rw [this]
+  unfold runOps step
+  simp only [hd, bind_ok, pure_ok]
+  rfl
 
 /-- Does a history end with something still allocated? -/
 def leftAfter (cfg : Cfg) (ops : List Op) : Bool :=
